@@ -743,7 +743,9 @@ func C20(r *core.Run) {
 	// a backend that fails its checks while client requests keep arriving and being answered
 	hcs = append(hcs, c20HealthCase{Name: "h-traffic", Threshold: 2, Kind: "non200", Script: "PP", Traffic: true})
 	if !r.Quick() {
-		hcs = append(hcs, c20HealthCase{Name: "h-traffic2", Threshold: 3, Kind: "closed", Script: "FPFFP", Traffic: true})
+		// (failures at HTTP level only: with client traffic the agent's idle connections to the backend are shared with the health
+		// check, and net/http silently repeats a GET whose reused connection is closed without an answer - one check, two arrivals)
+		hcs = append(hcs, c20HealthCase{Name: "h-traffic2", Threshold: 3, Kind: "non200", Script: "FPFFP", Traffic: true})
 	}
 	if r.Quick() {
 		add(1, "non200", "FFP")
